@@ -7,6 +7,7 @@ mod elgamal;
 mod pok;
 mod record;
 mod refeval;
+mod rngdrv;
 mod signcrypt;
 mod signet;
 mod threshold;
@@ -166,8 +167,26 @@ fn replay(args: &[String]) -> i32 {
     }
 }
 
+fn rng_cmd(args: &[String]) -> i32 {
+    let out_path = arg(args, "--out").expect("--out");
+    let n: usize = arg(args, "--events").unwrap_or("64").parse().unwrap();
+    let threads: usize = arg(args, "--threads").unwrap_or("4").parse().unwrap();
+    let proc_id: u64 = arg(args, "--proc").unwrap_or("0").parse().unwrap();
+    let mut all = rngdrv::drive::<Bls12381G1Impl>("G1", proc_id, threads, n);
+    all.extend(rngdrv::drive::<Bls12381G2Impl>("G2", proc_id, threads, n));
+    let mut out = std::fs::File::create(out_path).expect("create out");
+    for e in all.iter() {
+        writeln!(out, "{}", serde_json::to_string(e).unwrap()).unwrap();
+    }
+    println!("rng: {} events", all.len());
+    0
+}
+
 fn record_cmd(args: &[String]) -> i32 {
     let driver = arg(args, "--driver").expect("--driver");
+    if driver == "rng" {
+        return rng_cmd(args);
+    }
     let out_path = arg(args, "--out").expect("--out");
     let seed: u64 = arg(args, "--seed").unwrap_or("0").parse().unwrap();
     let events: usize = arg(args, "--events").unwrap_or("500").parse().unwrap();
